@@ -1,5 +1,6 @@
 // Generators and (de)serialisation for reference-writer file specifications (pw::FileSpec).
 #pragma once
+#include <set>
 #include "harness/common/pbt.hpp"
 #include "gen/seqs.hpp"
 #include "ref/parquet_writer.hpp"
@@ -119,11 +120,14 @@ inline pw::Node leafNode(const std::string &name, int rep, int type, int tl) { p
 inline pw::Node genSchema(const Opts &o) {
   pw::Node root; root.name = "schema"; root.group = true;
   int counter = 0;
+  std::set<std::string> used;
   std::function<pw::Node(int)> mk = [&](int depth) -> pw::Node {
     bool grp = o.nested && depth < 4 && *irange(0, 9) < 3;
     pw::Node n;
     n.name = (grp ? "g" : "c") + std::to_string(counter++);
     if (*irange(0, 19) == 0) n.name += "\xc3\xa9_x";   // non-ASCII name
+    // names that are proper prefixes of one another, in any order (a lookup must compare whole names)
+    if (!grp && *irange(0, 5) == 0) { std::string alt = *rc::gen::element<std::string>("p", "pr", "price", "price_usd", "price_usd_x", "q", "qty_reserved", "qty"); if (used.insert(alt).second) n.name = alt; }
     n.rep = o.all_required ? pq::REQUIRED : (o.nested ? *rc::gen::element<int>(pq::REQUIRED, pq::OPTIONAL, pq::OPTIONAL, pq::REPEATED) : *rc::gen::element<int>(pq::REQUIRED, pq::OPTIONAL));
     if (grp) { n.group = true; int k = *irange(1, 3); for (int i = 0; i < k; i++) n.kids.push_back(mk(depth + 1)); }
     else {
